@@ -52,7 +52,7 @@ m = {
         "name": "gosym",
         "path": "engine/",
         "serves_properties": [c["property_id"] for c in checks],
-        "kind_free_text": "path-wise symbolic executor for Go SSA (golang.org/x/tools/go/ssa v0.29.0) written for this task: boxed concrete shapes, symbolic scalars as SMT bit-vector terms, stateless DFS over solver-decided branch decisions, z3 4.8.12 (cvc5 --solve-bv-as-int for decimal kernels), native replay of every counterexample and native-vs-engine trace comparison on seeded inputs on every run",
+        "kind_free_text": "path-wise symbolic executor for Go SSA (golang.org/x/tools/go/ssa v0.29.0) written for this task: boxed concrete shapes, symbolic scalars as SMT bit-vector terms, stateless DFS over solver-decided branch decisions, z3 5.1.0 (z3-new -in, one long-lived process per worker; z3 4.8.12 and cvc5 selectable), context-bounded schedule exploration for the two concurrent properties, native replay of every input counterexample and native-vs-engine trace comparison on seeded inputs on every run",
     }],
     "checks": checks,
     "not_applicable": na,
